@@ -294,6 +294,9 @@ func (env *SpecEnv) objVal(o types.Object) *Val {
 		return constToVal(x.Type(), x.Val())
 	case *types.Var:
 		hn, hs := env.eng.globalHeap(x)
+		if env.fr != nil && env.fr.vc != nil {
+			env.fr.initConstGlobal(env.s, x, hn, hs)
+		}
 		return &Val{T: x.Type(), S: env.s.heap(hn, hs)}
 	}
 	return nil
